@@ -103,7 +103,7 @@ func (w *World) execCloseOp(ctx context.Context, toks []string) (bool, error) {
 		pr := w.peers[p]
 		var s iface.Store
 		var err error
-		opts := &iface.CreateDBOptions{}
+		opts := w.storeOptions()
 		switch w.kind {
 		case "kv":
 			s, err = pr.odb.KeyValue(ctx, w.dbAddr, opts)
